@@ -143,8 +143,11 @@ Fixpoint compact (rs : list (option req)) (cs : list (req * req)) : list (option
   | _, _ => ([], [])
   end.
 
-(* the in-place algorithm of compact_vectors, index by index (used by the DIFF of the two and
-   proved equal to [compact] on the first component for aligned vectors) *)
+(* the in-place algorithm of compact_vectors, index by index: [first_null] is the first loop
+   (pos = index of the first MPI_REQUEST_NULL, or size), [compact_loop] the second loop
+   (for i = pos+1 .. size-1; fuel = size - (pos+1) = its iteration count), [firstn p] the two resize(pos).
+   Proved equal to [compact] for vectors of equal length (MpiProofs.compact_inplace_correct) and
+   still DIFFed against it on every run. *)
 Fixpoint compact_loop (fuel i pos : nat) (rs : list (option req)) (cs : list (req * req))
   : nat * list (option req) * list (req * req) :=
   match fuel with
@@ -166,6 +169,26 @@ Definition compact_inplace (rs : list (option req)) (cs : list (req * req)) : li
   let pos := first_null 0 rs in
   let '(p, rs', cs') := compact_loop (length rs - (pos + 1)) (pos + 1) pos rs cs in
   (firstn p rs', firstn p cs').
+
+(* GHOST (not extracted, not used by [mstep]): the intermediate states of the second loop of
+   compact_vectors, one entry per loop head: (read index i, (write index pos, requests_, callbacks_)).
+   Same recursion as [compact_loop]; the last entry is the state the loop exits with
+   (MpiProofs.compact_trace_last). *)
+Fixpoint compact_trace (fuel i pos : nat) (rs : list (option req)) (cs : list (req * req))
+  : list (nat * (nat * list (option req) * list (req * req))) :=
+  (i, (pos, rs, cs)) ::
+  match fuel with
+  | O => []
+  | S f =>
+      match nth_error rs i, nth_error cs i with
+      | Some (Some r), Some c => compact_trace f (S i) (S pos) (set_nth pos (Some r) rs) (set_nth pos c cs)
+      | Some None, Some _ => compact_trace f (S i) pos rs cs
+      | _, _ => []
+      end
+  end.
+Definition compact_inplace_trace (rs : list (option req)) (cs : list (req * req)) :=
+  let pos := first_null 0 rs in
+  compact_trace (length rs - (pos + 1)) (pos + 1) pos rs cs.
 
 Definition mpi_complete (g : mstate) (r : req) (e : bool) : mstate :=
   match done_status r (mpi_done g) with
